@@ -390,7 +390,7 @@ def run_check(prop, tier, seed, args):
     units = []
     for e in engines:
         scale = args.cases or 1.0
-        if e.strategy is not None:
+        if e.strategy is not None and e.cases.get(tier, 100) > 0:
             k = max(1, int(e.shards.get(tier, 1)))
             n = max(1, int(e.cases.get(tier, 100) * scale))
             k = min(k, n)
